@@ -163,6 +163,41 @@ def run(prop, tier, params, t0):
         log("NONCONFORMANCE: %d observed steps are not steps of the model (Layer M); first: %s" % (len(nonconfs), nonconfs[0]))
     if unrep:
         log("NONCONFORMANCE: %d values were not whole units" % unrep)
+    # optional: crash/fault enumeration of some of the generated operations, judged for THIS property
+    ncrash = params.get("crash_cases_quick" if tier == "quick" else "crash_cases_thorough", 0)
+    crash_cov = {}
+    if params.get("replay_case") or (ncrash and params.get("quick_cfgs")):
+        ops = set(params.get("crash_ops", []))
+        cand = [b for b in all_b + [b[:i + 1] for b in all_b for i in range(len(b) - 1)] if b and b[-1].get("ev") in ops]
+        uniq = {}
+        for b in cand:
+            uniq.setdefault(json.dumps(b, sort_keys=True), b)
+        cand = [uniq[k] for k in sorted(uniq)]
+        groups = {}
+        for b in cand:
+            e = b[-1]
+            groups.setdefault((e.get("ev"), e.get("stage", ""), bool(e.get("late")), e.get("w", "")), []).append(b)
+        per = max(1, ncrash // max(1, len(groups)))
+        pick = []
+        for g in sorted(groups, key=str):
+            c, _ = select_behaviours(groups[g], per, rnd)
+            pick += c
+        cases = [{"prefix": b[:-1], "op": b[-1], "modes": ["crash", "fail"]} for b in pick[:ncrash + len(groups)]]
+        if params.get("replay_case"):
+            cases = [params["replay_case"]]
+        build_harness(["replay_crash"])
+        log("  crash/fault enumeration of %d generated operations, judged for %s" % (len(cases), prop))
+        nd2 = replay("replay_crash", {"setup": setup, "cases": cases}, prop + "_crash")
+        ev2 = read_ndjson(nd2)
+        keys_c, nonconfs_c, _, _ = judge(prop, nd2, prop + "_crash")
+        for k, info in keys_c.items():
+            b = info["behaviour"]
+            info["case"] = cases[b] if isinstance(b, int) and b < len(cases) else None
+            info["setup"] = setup
+            keys[k + ":" + str(info.get("info", "")).replace(" ", "_")] = info
+        crashes = [e for e in ev2 if e.get("ev") == "crash"]
+        crash_cov = {"crash_cases": len(cases), "crash_points_executed": len(crashes),
+                     "crash_points_with_next_key_probe": sum(1 for e in crashes if e.get("next_key"))}
     known, new = classify(prop, keys)
     n_events = len(events)
     kinds = {}
@@ -185,4 +220,5 @@ def run(prop, tier, params, t0):
         "panics_observed": len(panics),
         "harness_build_s": round(build_s, 1),
     }
+    cov.update(crash_cov)
     finish(prop, tier, "model_checking", cov, params["assumptions"], t0, known, new)
